@@ -47,6 +47,19 @@ theorem encrypted_reply_returned (c : BlockCipher) (hok : c.OK) (hc : BlockSized
   exact complete_reply_returned b hb (cutLike segs p) (Lemmas.ReceiveEnc.cutLike_ne segs p hl hne) m ms
     (by rw [hflat]; exact hlen) (by rw [hflat]; exact hmod) (by rw [hflat]; exact hdec)
 
+/-- hence the loop on ciphertext never panics either, whatever arrives and whatever the cipher does with it -/
+theorem receive_enc_no_panic (c : BlockCipher) (hc : BlockSized c) (iv : List Byte) (hiv : iv.length = 32)
+    (b : Nat) (segs : List (List Byte)) : (receiveBytesEnc c iv b segs).result ≠ .panic := by
+  rw [cipher_transparent c hc iv hiv b segs]
+  exact receive_no_panic _ _
+
+/-- and what it hands to the decoder is the decryption of a whole-block prefix of what arrived -/
+theorem fed_enc_is_prefix (c : BlockCipher) (hc : BlockSized c) (iv : List Byte) (hiv : iv.length = 32)
+    (b : Nat) (segs : List (List Byte)) :
+    ∃ k, (receiveBytesEnc c iv b segs).fed = (cutLike segs (plainOf c iv segs.flatten)).flatten.take (32 * k) := by
+  rw [cipher_transparent c hc iv hiv b segs]
+  exact fed_is_prefix _ _
+
 /-- non-vacuity: the identity "cipher" is block sized and OK -/
 example : BlockSized ⟨id, id⟩ ∧ (⟨id, id⟩ : BlockCipher).OK := by
   exact ⟨fun _ h => h, fun _ h => ⟨h, rfl⟩⟩
@@ -55,3 +68,5 @@ example : BlockSized ⟨id, id⟩ ∧ (⟨id, id⟩ : BlockCipher).OK := by
 #print axioms encrypted_reply_returned
 
 end Rscp.Props.C07
+#print axioms Rscp.Props.C07.receive_enc_no_panic
+#print axioms Rscp.Props.C07.fed_enc_is_prefix
